@@ -311,7 +311,7 @@ Definition same_value (v r : pyval) : bool :=
   | VOther => false
   end.
 
-(* the domain of the property: finite numbers, XML strings, valid dates, whole-second durations *)
+(* the domain of the property: finite numbers, XML strings, valid dates, every duration *)
 Definition float_repr_ok (r : str) : bool := match dec_of_text r with Some _ => true | None => false end.
 Definition dec_text_roundtrips (d : dec) : bool :=
   match dec_of_text (str_of_dec d) with Some d' => dec_eqb d d' | None => false end.
@@ -322,7 +322,6 @@ Definition in_domain (v : pyval) : bool :=
   | VStr s => xml_str s
   | VDate y m d => valid_date y m d
   | VDateTime d => valid_dt d
-  | VDur us => (us mod 1000000 =? 0)%Z
   | VOther => false
   | _ => true
   end.
